@@ -316,7 +316,12 @@ def run(ctx):
         want = {m["name"] for m in metas[ci]}
         got = {r_["name"].split(".")[-1] for r_ in recs}
         if len(got & want) < len(want) // 10:
-            raise Inconclusive("defersdump lost functions: %s" % sorted(want - got)[:5])
+            # a chunk of bodies whose defer statements are all unreachable (the enumeration is sorted) is legitimate;
+            # a package that does not compile is not
+            q = vlib.sh(["go", "build", "./..."], cwd=gdirs[ci], env=vlib.goenv(), check=False, timeout=600)
+            if q.returncode != 0:
+                raise Inconclusive("generated package of chunk %d does not compile (defersdump lost %s): %s" % (
+                    ci, sorted(want - got)[:5], q.stdout[-1500:]))
         nodefer += len(want - got)  # every defer statement of the body is unreachable: nothing to check
         for r_ in recs:
             r_["chunk"] = ci
